@@ -14,7 +14,7 @@ from aiomysensors.exceptions import PersistenceReadError
 from aiomysensors.gateway import Config, Gateway
 
 from vf import env
-from vf.props import c13
+from vf.props import c13, c15
 from vf.runner import Outcome, fail
 
 ID = "C14"
@@ -122,7 +122,7 @@ def strategy(tier: str):
         st.binary(max_size=40),
         st.sampled_from((b"\xff\xfe", b"\xef\xbb\xbf{}", b"\xef\xbb\xbf", b"{\"1\": \xff}", b"\x00", b"{}\x00", b"nul", b"[]", b"{\"1\":{}}", b"1", b"\"x\"", b"{\"a\":1}{}", b"  ", b"\n")),
     ).map(lambda b: {"kind": "content", "origin": "bytes", "data": b.decode("latin-1")})
-    special = st.sampled_from(("missing-empty-registry", "missing-with-registry", "empty-file", "directory", "missing-after-start", "missing-after-save", "missing-after-load", "missing-after-failed-load", "missing-with-odd-text")).map(lambda w: {"kind": "special", "what": w})
+    special = st.sampled_from(SPECIALS).map(lambda w: {"kind": "special", "what": w})
     base = st.one_of(_mutated(), _mutated(), _mutated(), _prefix(), arbitrary_json, arbitrary_json, raw, special)
 
     def _mode(pair):
@@ -132,6 +132,10 @@ def strategy(tier: str):
         return {**case, mode: True} if mode else case
 
     return st.tuples(base, st.sampled_from((None, None, None, None, "debug_log", "prior_session"))).map(_mode)
+
+
+SPECIALS = ("missing-empty-registry", "missing-with-registry", "empty-file", "directory", "missing-after-start", "missing-after-save", "missing-after-load", "missing-after-failed-load",
+            "missing-with-odd-text", "missing-dangling-symlink", "missing-concurrent-loads", "missing-other-path")
 
 
 def _enumerate_base(tier: str):
@@ -170,10 +174,15 @@ def _enumerate_base(tier: str):
         yield {"kind": "content", "origin": "deep", "data": "[" * depth}
         yield {"kind": "content", "origin": "deep", "data": '{"1":' * depth}
         yield {"kind": "content", "origin": "deep", "data": '{"1":{"node_id":1,"node_type":1,"protocol_version":"2","children":' + '{"1":' * depth}
-    for what in ("missing-empty-registry", "missing-with-registry", "empty-file", "directory", "missing-after-start", "missing-after-save", "missing-after-load", "missing-after-failed-load", "missing-with-odd-text"):
+    for what in SPECIALS:
         yield {"kind": "special", "what": what}
         yield {"kind": "special", "what": what, "debug_log": True}
         yield {"kind": "special", "what": what, "prior_session": True}
+        for name in c15.FILE_NAMES[2:]:
+            yield {"kind": "special", "what": what, "file_name": name}
+    for name in c15.FILE_NAMES[2:]:
+        for text in ("", "{}", "garbage", '{"1": {"node_id": 1, "node_ty', "[]", '{"1": {"node_id": 1, "node_type": 17, "protocol_version": "2.0"}}', "\x80\x04\x95", "\x80\x04}q\x00."):
+            yield {"kind": "content", "origin": "modes", "data": text, "file_name": name}
     for text in ("", "{}", " ", "\n", '{"1": {"node_id": 1, "node_type": 17, "protocol_version": "2.0"}}', '{"1": {"node_id": 1, "node_ty', "[]", "null",
                  '{"1": {"sensor_id": 1, "type": 17, "protocol_version": "2.0", "children": {}}}', '{"7": {"node_id": 7, "node_type": 17, "protocol_version": "2.0", "children": {}}, "9": {"node_id": 9, "node_type": 18, "protocol_version": "2.0"}}'):
         for prefill in (False, True):
@@ -269,9 +278,16 @@ def enumerate_cases(tier: str):
             yield {**case, "warnings": "error"}
 
 
+def opt_cases(tier: str):
+    """Cases also executed by an interpreter started with -O (see vf/optpass.py): special paths, prefixes, mutated records."""
+    for idx, case in enumerate(_enumerate_base(tier)):
+        if case.get("kind") == "special" or (case.get("origin") in ("mutated", "prefix", "json", "key-mismatch", "modes") and idx % 3 == 0):
+            yield case
+
+
 def run_case(case: dict) -> Outcome:
     scratch = tempfile.mkdtemp(prefix="vf-c14-", dir=c13.SCRATCH_BASE)
-    path = os.path.join(scratch, "persistence.json")
+    path = os.path.join(scratch, case.get("file_name") or "persistence.json")
     info = {"json_ok": False, "raised": False}
     origin = case.get("origin", case.get("what", "?"))
 
@@ -318,6 +334,35 @@ def run_case(case: dict) -> Outcome:
                 except Exception as err:  # noqa: BLE001
                     return fail(f"load-leak:setup:{env.exc_sig(err)}", f"{what}: saving and loading a valid registry in a writable directory raised {err!r}")
                 os.unlink(path)
+            elif what == "missing-dangling-symlink":
+                # the configured path is a symbolic link whose target does not exist yet (a data directory that was just mounted empty)
+                env.install_registry(gateway.nodes, {"8": {"sketch_name": "behind a link"}})
+                os.symlink(os.path.join(scratch, "target-of-the-link.json"), path)
+            elif what == "missing-concurrent-loads":
+                # two tasks load the same missing file at the same time (two gateways sharing a registry file start together)
+                env.install_registry(gateway.nodes, {"8": {"sketch_name": "loaded twice"}})
+                second = Gateway(env.RecordingTransport(), Config(persistence_file=path))
+                env.install_registry(second.nodes, {"8": {"sketch_name": "loaded twice"}})
+                results = await asyncio.gather(gateway.persistence.load(), second.persistence.load(), return_exceptions=True)
+                for err in results:
+                    if isinstance(err, BaseException) and not isinstance(err, PersistenceReadError):
+                        return fail(f"load-leak:{env.exc_sig(err)}", f"{what}: one of two concurrent loads of a missing file raised {err!r}")
+                    if isinstance(err, PersistenceReadError):
+                        return fail(f"special:{what}:read-error", f"{what}: one of two concurrent loads of a missing file raised {err!r}")
+            elif what == "missing-other-path":
+                # load(path) is pointed at a file that does not exist while the configured file does
+                env.install_registry(gateway.nodes, {"8": {"sketch_name": "configured file exists"}})
+                await gateway.persistence.save()
+                before_other = env.snapshot(gateway.nodes)
+                try:
+                    await gateway.persistence.load(os.path.join(scratch, "another-file-that-is-missing.json"))
+                except PersistenceReadError as err:
+                    return fail(f"special:{what}:read-error", f"{what}: load(path) of a missing file raised {err!r}")
+                except Exception as err:  # noqa: BLE001
+                    return fail(f"load-leak:{env.exc_sig(err)}", f"{what}: load(path) of a missing file raised {err!r}")
+                if env.snapshot(gateway.nodes) != before_other:
+                    return fail(f"special:{what}:registry-changed", f"{what}: registry changed by load")
+                return None
             elif what == "missing-after-start":
                 env.install_registry(gateway.nodes, {"4": {"sketch_name": "started first"}})
                 await gateway.persistence.start()
@@ -346,7 +391,7 @@ def run_case(case: dict) -> Outcome:
                     return fail("special:missing:not-created", "missing file was not created by load (scheduled save already started)")
                 return None
             if what.startswith("missing"):
-                if not os.path.isfile(path):
+                if not os.path.isfile(path):  # (follows a symbolic link)
                     return fail("special:missing:not-created", "missing file was not created by load")
                 status, after = await c13._load(path)
                 if status != "ok" or after != before:
